@@ -356,7 +356,7 @@ func checkC19(s *Scenario) (*Failure, *schedObs) {
 	}
 	taskBudget := uint64(0)
 	for _, d := range env.docs {
-		if b := 8 * stepBudget(len(d)); b > taskBudget {
+		if b := 32 * stepBudget(len(d)); b > taskBudget {
 			taskBudget = b
 		}
 	}
